@@ -459,6 +459,9 @@ impl Connection {
         loop {
             let data = self.read_message().await?;
 
+            // Incomplete fragment sequences are held only until they time out
+            self.fragment_assembler.cleanup_expired();
+
             if data.is_empty() {
                 trace!("Received tick (heartbeat), continuing...");
                 continue;
